@@ -222,6 +222,37 @@ got = flags(ccases["seq branch pass"])
 ok = got == "ShapeError"
 cbad += not ok
 print(f"{'ok ' if ok else 'BAD'} {'seq branch pass (failure flags)':42s} {got}" + ("" if ok else "   expected ShapeError"))
-n, nbad = len(cases) + len(ccases) + 1, bad + cbad
-print(f"consts_manager_selftest: {n - nbad}/{n} as expected ({len(cases) - bad}/{len(cases)} failure-handling variants, {len(ccases) + 1 - cbad}/{len(ccases) + 1} copy-flag variants)")
+# process-wide state: the Snapshot class must hold no object shared by its instances (variants of broker/_typing.py)
+TSRC = open(os.path.join(REPO, "demeter/broker/_typing.py")).read()
+FIELD = "    market_status: MarketDict[Union[pd.Series, pd.DataFrame]] = field(default_factory=MarketDict)"
+if TSRC.count(FIELD) != 1:
+    print("consts_manager_selftest: the text of broker/_typing.py is not the one these variants are edits of (not a failure of the extractor)")
+    sys.exit(2)
+def snap(src):
+    try:
+        return "T" if cm.snapshot_fields_private(ast.parse(src), ShapeError) else "F"
+    except ShapeError:
+        return "ShapeError"
+ANN = "    market_status: MarketDict[Union[pd.Series, pd.DataFrame]]"
+scases = {
+ "current": (TSRC, "T"),
+ "class-level MarketDict()": (TSRC.replace(FIELD, ANN + " = MarketDict()"), "F"),
+ "class-level dict display": (TSRC.replace(FIELD, ANN + " = {}"), "F"),
+ "field(default=MarketDict())": (TSRC.replace(FIELD, ANN + " = field(default=MarketDict())"), "F"),
+ "default taken from a module-level object": (TSRC.replace(FIELD, ANN + " = _SHARED_STATUS"), "F"),
+ "factory returning a module-level object is not judged here, a cache attribute is": (TSRC.replace(FIELD, FIELD + "\n    _last = MarketDict()"), "ShapeError"),
+ "extra annotated class-level cache": (TSRC.replace(FIELD, FIELD + "\n    last_status: dict = dict()"), "F"),
+ "no default": (TSRC.replace(FIELD, ANN), "T"),
+ "not a dataclass any more": (TSRC.replace("@dataclass\nclass Snapshot:", "class Snapshot:"), "ShapeError"),
+}
+sbad = 0
+for k, (v, want) in scases.items():
+    ast.parse(v)
+    assert k == "current" or v != TSRC, k
+    got = snap(v)
+    sbad += got != want
+    print(f"{'ok ' if got == want else 'BAD'} snapshot: {k:60s} {got}" + ("" if got == want else f"   expected {want}"))
+n, nbad = len(cases) + len(ccases) + 1 + len(scases), bad + cbad + sbad
+print(f"consts_manager_selftest: {n - nbad}/{n} as expected ({len(cases) - bad}/{len(cases)} failure-handling variants, {len(ccases) + 1 - cbad}/{len(ccases) + 1} copy-flag variants, "
+      f"{len(scases) - sbad}/{len(scases)} snapshot-field variants)")
 sys.exit(1 if nbad else 0)
